@@ -35,10 +35,11 @@ from codec import tla_str
 CACHE = os.path.join(VERIF, ".cache")
 MODULES = ("Names.tla", "NameClasses.tla", "PropsNames.tla", "MC_Names.tla")
 
+CONSTS = ("MaxLen", "WideLen", "PairLen", "Rich", "MaxTitle", "UseLen", "MaxSlots")
 TIERS = {
-    "quick": dict(MaxLen=3, PairLen=3, Rich="FALSE", MaxTitle=2, MaxSlots=2,
+    "quick": dict(MaxLen=3, WideLen=3, PairLen=3, Rich="FALSE", MaxTitle=2, UseLen=2, MaxSlots=2,
                   trace_names=600, trace_len=8),
-    "thorough": dict(MaxLen=4, PairLen=3, Rich="TRUE", MaxTitle=2, MaxSlots=3,
+    "thorough": dict(MaxLen=4, WideLen=3, PairLen=3, Rich="TRUE", MaxTitle=3, UseLen=2, MaxSlots=3,
                      trace_names=20000, trace_len=10),
 }
 
@@ -213,7 +214,7 @@ def label_of(ch):
 # ------------------------------------------------------------------ stage 1
 def _cfg(t):
     lines = ["CONSTANTS"]
-    for k in ("MaxLen", "PairLen", "Rich", "MaxTitle", "MaxSlots"):
+    for k in CONSTS:
         lines.append(f" {k} = {t[k]}")
     lines += ["SPECIFICATION Spec", "INVARIANT Inv", "CHECK_DEADLOCK FALSE"]
     return "\n".join(lines) + "\n"
@@ -260,7 +261,7 @@ def stage1(tier):
         raise MachineryError("MC_Names did not export its tables exactly once")
     if meta["distinct"] != len(lines) - 1:
         raise MachineryError(f"exported {len(lines) - 1} states, TLC reports {meta['distinct']}")
-    meta["consts"] = {k: t[k] for k in ("MaxLen", "PairLen", "Rich", "MaxTitle", "MaxSlots")}
+    meta["consts"] = {k: t[k] for k in CONSTS}
     return by, meta
 
 
@@ -447,7 +448,7 @@ def replay_title(st):
         if ob["roots"] is not None:
             root = ob["roots"][0]
             try:
-                inner = root.properties["o"].element
+                inner = prop_by_source(root, "o")
                 r["cname"], r["rname"] = inner.__name__, root.__name__
             except Exception as exc:  # noqa
                 r["err"] = f"shape: {type(exc).__name__}: {exc}"[:200]
@@ -499,23 +500,31 @@ def build_doc(st, mi=0):
     return root, where
 
 
+def prop_by_source(cls, src):
+    """the element of the property whose JSON name is src (attribute names are what is under test)"""
+    for p in cls.properties.values():
+        if p.source == src:
+            return p.element
+    raise KeyError(src)
+
+
 def _slot_class(roots, doc, j, pos, k):
     root = roots[0]
     if pos == "prop":
-        return root.properties[k].element, None
+        return prop_by_source(root, k), None
     if pos == "arr":
-        return root.properties[k].element.items, None
+        return prop_by_source(root, k).items, None
     if pos == "tuple":
-        return root.properties[k].element.items[0], None
+        return prop_by_source(root, k).items[0], None
     if pos == "addit":
-        return root.properties[k].element.additionalItems, None
+        return prop_by_source(root, k).additionalItems, None
     if pos == "contains":
-        return root.properties[k].element.contains, None
+        return prop_by_source(root, k).contains, None
     if pos == "anyof":
-        return root.properties[k].element.elements[0], None
+        return prop_by_source(root, k).elements[0], None
     if pos == "nest":
-        mid = root.properties[k].element
-        return mid.properties["n"].element, mid
+        mid = prop_by_source(root, k)
+        return prop_by_source(mid, "n"), mid
     if pos == "pattern":
         return root.patternProperties[f"^p{j}"], None
     if pos == "deps":
